@@ -6,26 +6,12 @@
    The oracles of the model are supplied here: the i-th drawn key is "handle:M" ^ 19 digits, and
    map_keys / set_to_array list their elements in canonical order (handle names replaced by the
    step that allocated them), exactly as the Rust harness reorders the real arrays. *)
-let cmd_of_name = function
-  | "array" -> Some CArray | "range" -> Some CRange | "array_push" -> Some CArrayPush
-  | "array_pop" -> Some CArrayPop | "array_get" -> Some CArrayGet | "array_set" -> Some CArraySet
-  | "array_remove" -> Some CArrayRemove | "array_clear" -> Some CArrayClear
-  | "array_length" -> Some CArrayLength | "map" -> Some CMap | "map_put" -> Some CMapPut
-  | "map_get" -> Some CMapGet | "map_remove" -> Some CMapRemove | "map_size" -> Some CMapSize
-  | "map_keys" -> Some CMapKeys | "map_clear" -> Some CMapClear | "set_new" -> Some CSetNew
-  | "set_put" -> Some CSetPut | "set_remove" -> Some CSetRemove | "set_contains" -> Some CSetContains
-  | "set_size" -> Some CSetSize | "set_clear" -> Some CSetClear | "set_to_array" -> Some CSetToArray
-  | "is_array" -> Some CIsArray | "is_map" -> Some CIsMap | "is_set" -> Some CIsSet
-  | "release" -> Some CRelease | "raw" -> Some CRaw
-  | "array_is_empty" -> Some CArrayIsEmpty | "array_contains" -> Some CArrayContains
-  | "array_concat" -> Some CArrayConcat | "array_join" -> Some CArrayJoin
-  | "map_contains_key" -> Some CMapContainsKey | "map_contains_value" -> Some CMapContainsValue
-  | "map_is_empty" -> Some CMapIsEmpty | "set_from_array" -> Some CSetFromArray
-  | "set_is_empty" -> Some CSetIsEmpty
-  | _ -> None
+(* command names and aliases are resolved by the extracted table CollectionsTables.cmd_of_alias,
+   which theorem C12_tables ties to the aliases declared in the source *)
+let codes_of_string s = List.init (String.length s) (fun i -> n_of_int (Char.code s.[i]))
+let cmd_of_name name = cmd_of_alias (codes_of_string name)
 let alloc_cmds = ["array"; "range"; "map"; "set_new"; "map_keys"; "set_to_array"; "array_concat";
                   "set_from_array"; "raw"; "split"]
-let codes_of_string s = List.init (String.length s) (fun i -> n_of_int (Char.code s.[i]))
 let rnd (k : nat) = codes_of_string (Printf.sprintf "handle:M%019d" (int_of_nat k))
 let ekind_str = function
   | EArgs -> "A" | ENonNum -> "N" | EKind -> "K" | ENotFound -> "F" | EIndex -> "I" | ERange -> "R"
